@@ -864,15 +864,53 @@ def collapse_cases():
     return out
 
 
+ROOT_EDIT = [   # (source, walk root path, [(selector, field), ...]): every (virtual) list field of a scope-like walk root
+    ('x = [i + j for i in a for j in b if c]', [0, 1], [('cur', 'generators')]),
+    ('x = {i for i in a if b}', [0, 1], [('cur', 'generators')]),
+    ('x = (i for i in a)', [0, 1], [('cur', 'generators')]),
+    ('x = {k: v for k, v in a for w in b}', [0, 1], [('cur', 'generators')]),
+    ('f = lambda a, b=d, *c: a + b', [0, 1], [('child0', '_all')]),
+    ('def f(a, b=d, *c, e: t = 1) -> r:\n    return a\n', [0], [('child0', '_all')]),
+    ('@d1\n@d2(x)\ndef f(a):\n    return a\n', [0], [('cur', 'decorator_list')]),
+    ('@d1\nclass C(B1, B2, k=v):\n    x = 1\n', [0], [('cur', '_bases'), ('cur', 'decorator_list')]),
+    ('class C[T, U](B):\n    x = 1\n', [0], [('cur', 'type_params'), ('cur', '_bases')]),
+    ('x = {a: b, **c}', [0, 1], [('cur', '_all')]), ('f(a, *b, k=v)', [0, 0], [('cur', '_args')]),
+    ('x = [a, [b, c], d]', [0, 1], [('cur', 'elts'), ('childN', 'elts')]),
+]
+
+
+def root_edit_cases():
+    """the walk root (comprehension, lambda, def, class, containers) loses ALL elements of one of its list fields while it
+    is the node just yielded (or at a later yield), with norm=False (intermediate states of a rebuild) and norm=True;
+    scope=True and scope=False, all in {False, True}, both directions"""
+    out = []
+    for src, wroot, fields in ROOT_EDIT:
+        for sel, field in fields:
+            for scope in (True, False):
+                for all_ in 'FT':
+                    for back in (False, True):
+                        for norm in (False, True):
+                            for k in (0, 1, 2, 4):
+                                for send in (None, True):
+                                    acts = [['delfield', 'wroot' if (sel == 'cur' and k) else sel, field]] + ([['send', True]] if send else [])
+                                    c = dict(on='enter', back=back, recurse=True, self_=True, src=src, wroot=wroot, script=[[k, acts]],
+                                             all=all_, mode='exec', norm=norm)
+                                    if scope:
+                                        c['scope'] = True
+                                    out.append(c)
+    return out
+
+
 def sweep(ctx):
     q = ctx.quick
-    sc = scope_cases(q)
+    redit = root_edit_cases()
+    sc = scope_cases(q) + [c for c in redit if c.get('scope')]
     for c, r in zip(sc, pmap(_run, sc)):
         ctx.tally('scope_end', r.get('end'))
         ctx.count([c['src'], c['back'], c['script'], 'scope'], r.get('n_mut', 0) > 0)
         report_viol(ctx, c, r, 'scope walk')
     # corpus programs: oracle + correspondence through observed trees
-    cases = collapse_cases() + slice_cases(q) + catalogue_cases(q) + prog_cases(ctx, 60 if q else 500, 5 if q else 14, 4 if q else 40)
+    cases = [c for c in redit if not c.get('scope')] + collapse_cases() + slice_cases(q) + catalogue_cases(q) + prog_cases(ctx, 60 if q else 500, 5 if q else 14, 4 if q else 40)
     run_compare(ctx, 'walk(corpus programs, observed mutations) vs Pfst.WalkMut machines', cases, False, 'corpus program',
                 'prog_')
     # search / sub
